@@ -703,7 +703,7 @@ def _decide_equal(a, b, budget=None, _why=None):
                             has_def = True
                             ck_ = (min(x, y), max(x, y))
                             if ck_ not in _DEF_PAIR:
-                                ok_ = ax.args and ay.args and isinstance(ax.args[0], Rat) and isinstance(ay.args[0], Rat) and size(ax.args[0]) + size(ay.args[0]) <= budget
+                                ok_ = ax.args and ay.args and isinstance(ax.args[0], Rat) and isinstance(ay.args[0], Rat) and size(ax.args[0]) + size(ay.args[0]) <= 12 * budget
                                 _DEF_PAIR[ck_] = decide_equal(ax.args[0], ay.args[0], budget) if ok_ else 'unknown'
                             verdicts.append('equal' if _DEF_PAIR[ck_] == 'equal' else 'unknown')
                     else:
